@@ -58,11 +58,11 @@ Section Dec.
     rewrite Hc. destruct (get_nl_field false val (rf_term r)) as [l|]; reflexivity.
   Qed.
 
-  Lemma decode_obj b kvs i : fj_parse b = Ok (FObj kvs) -> decode b = Some (Ok i) -> load 64 (FObj kvs) = Some i.
+  Lemma decode_obj b kvs i : fj_parse b = Ok (FObj kvs) -> decode b = Some (Ok i) -> load json_dec_fuel (FObj kvs) = Some i.
   Proof.
     intros Hp. unfold unmarshal_json. rewrite Hp. unfold unmarshal_to_item.
     destruct (keys_clean (FObj kvs)); [|discriminate]. unfold unmarshal_core. cbv zeta.
-    destruct (load 64 (FObj kvs)) as [i'|]; [|discriminate]. intros H. injection H as ->. reflexivity.
+    destruct (load json_dec_fuel (FObj kvs)) as [i'|]; [|discriminate]. intros H. injection H as ->. reflexivity.
   Qed.
 
   (* the document of Model/Text5.v decoded by the whole decoder: every natural-language read entry of the
@@ -79,7 +79,7 @@ Section Dec.
     assert (Hp : fj_parse (doc_encode5 ty tx) = Ok (FObj kvs)).
     { rewrite (doc_encode5_tree ty tx Hty Hok), parse_doc by (apply doc5_depth, Hok). rewrite Ek. reflexivity. }
     pose proof (decode_obj _ kvs _ Hp Hd) as El.
-    destruct (fields_read _ _ _ _ _ _ _ 63 kvs p k fs El Hrk) as [_ [_ [rs' [Hrs' [Hall _]]]]].
+    destruct (fields_read _ _ _ _ _ _ _ 300 kvs p k fs El Hrk) as [_ [_ [rs' [Hrs' [Hall _]]]]].
     rewrite Hrs in Hrs'. injection Hrs' as <-. destruct (Hall r Hin) as [ov [Ev Eg]].
     rewrite (entry_value_nl _ _ r Hg Hgd) in Ev by (rewrite Ht; destruct q; reflexivity).
     injection Ev as <-. rewrite Eg, Ht, <- Ek, (get_nl_field_doc5 false ty tx q Hq), (get_nl_field_member false tx q Hq).
